@@ -170,7 +170,10 @@ def run_trees(seed, trials):
                              [(tuple(map(tuple, p)), s, e, w) for _, p, s, e, w in exp], desc)); continue
         bad = False
         for (res, p, s, e, w) in exp:
-            i = m.find_resource(res)
+            try:
+                i = m.find_resource(res)
+            except KeyError:
+                problems.append(("find_resource raised KeyError for a resource that all_resources() reports", (tuple(map(tuple, p)), s, e, w), desc)); bad = True; break
             if (i.path, i.start, i.end, i.width) != (p, s, e, w):
                 problems.append(("find_resource differs", (s, e, w), (i.start, i.end, i.width), desc)); bad = True; break
         try:
